@@ -8,6 +8,7 @@
 //	n       = number of points written: a number, or <k>c+<m> = k*defaultEdgeBufferSize + m
 //	chain   = node kinds after the implicit `stream` source, comma separated:
 //	          from | where | post | alert | influx:<B> | udf | fail:<K> | loop |
+//	          hout (httpOut('h<idx>') as a pass-through node: its stop hook runs before it drained its input) |
 //	          minflux:<B>.<K>.<F> (influxDBOut().buffer(B) WITHOUT .database()/.retentionPolicy() in a task with K DBRPs
 //	          db0/rp … db<K-1>/rp: point i is written to database i mod K and keeps it, so the node's write buffer holds one
 //	          batch per database; the fake client REJECTS every write to the databases of the bit mask F) |
@@ -109,7 +110,7 @@ func parseChain(s string) ([]nodeSpec, error) {
 			ns.arg = v
 		}
 		switch ns.kind {
-		case "from", "where", "post", "alert", "udf", "loop":
+		case "from", "where", "post", "alert", "udf", "loop", "hout":
 		case "union", "join":
 			return nil, fmt.Errorf("%s is only allowed as the head of a `=` part", ns.kind)
 		case "influx", "fail", "barrier", "pbarrier", "barriernd":
@@ -306,6 +307,10 @@ func runCase(chainS, stopKind, class string, n int, stopBound time.Duration) (re
 			sb.WriteString("  |from().measurement('m')\n")
 		case "where":
 			sb.WriteString("  |where(lambda: TRUE)\n")
+		case "hout":
+			// httpOut in MID-pipeline: a pass-through node WITH a stop hook (stopOut -> DelRoutes), which
+			// ExecutingTask.stop runs BEFORE the node has drained its closed input edge
+			fmt.Fprintf(&sb, "  |httpOut('h%d')\n", idx)
 		case "post":
 			t := &sinkTarget{rec: newOutRec(), gate: g}
 			path := fmt.Sprintf("/%s/%d/p", key, idx)
